@@ -594,7 +594,8 @@ def patch_threading(kernel):
     threading.Thread.join = join
 
     def hook(args):
-        kernel.task_errors.append((getattr(args.thread, "name", "?"), repr(args.exc_value),
+        # the class name, not Thread-<n>: default thread names carry a process-global counter
+        kernel.task_errors.append((type(args.thread).__name__, repr(args.exc_value),
                                    "".join(traceback.format_exception(args.exc_type, args.exc_value,
                                                                       args.exc_traceback))))
 
